@@ -189,7 +189,9 @@ var c11frexp = Register("C11", "C11.frexp", func(a c11FrexpArgs) *Violation {
 })
 
 func genScaleExp(t *rapid.T) int {
-	switch ir(t, 0, 10, "expKind") {
+	switch ir(t, 0, 11, "expKind") {
+	case 11:
+		return genWrapInt(t, ir(t, -6200, 6200, "expBase"))
 	case 0, 1:
 		return ir(t, -7000, 7000, "exp")
 	case 2, 8, 9:
